@@ -615,7 +615,8 @@ class ContactlessFrontend(object):
                         while not terminate() and tag.is_present:
                             time.sleep(0.1)
                         self.device.turn_off_led_and_buzzer()
-                        return options['on-release'](tag)
+                        options['on-release'](tag)
+                        return True
                     else:
                         return tag
 
@@ -630,7 +631,8 @@ class ContactlessFrontend(object):
                     log.debug("connected {0}".format(llc))
                     if options['on-connect'](llc):
                         llc.run(terminate=terminate)
-                        return options['on-release'](llc)
+                        options['on-release'](llc)
+                        return True
                     else:
                         return llc
 
@@ -654,7 +656,8 @@ class ContactlessFrontend(object):
                         except nfc.clf.CommunicationError as error:
                             log.debug(error)
                             tag_rsp = None
-                    return options['on-release'](tag)
+                    options['on-release'](tag)
+                    return True
                 else:
                     return tag
 
